@@ -199,6 +199,88 @@ theorem numeric_placeholder_value (idc : Char) (pp : List (Str × Option Str)) (
   rw [List.getElem?_eq_getElem hlt]
   simp
 
+/-! ## expanding IN: the expansion keeps every placeholder aligned -/
+
+/-- the replacement text of an expanding parameter (what `process_expanding` inserts) -/
+def replOf (c : Compiled) (st : Style) (params : List (Str × PVal)) (n : Str) : Str :=
+  match c.kindOf n, alookup n params with
+  | some b, some (.many vs) => (leep st b n vs).2
+  | _, _ => []
+
+theorem pc_mem_segNames : ∀ (segs : List Seg) (n : Str) (g : Option Str),
+    Seg.pc n g ∈ segs → n ∈ segNames segs := by
+  intro segs
+  induction segs with
+  | nil => intro n g h; simp at h
+  | cons s r ih =>
+    intro n g h
+    simp only [List.mem_cons] at h
+    rcases h with h | h
+    · subst h; simp [segNames]
+    · cases s <;> simp [segNames, ih n g h]
+
+/-- **expanding_alignment** (qmark / format): for ANY statement — any number and order
+    of text, bind and expanding-IN segments, any list lengths including empty — whose
+    names are distinct and whose generated names `name_1 … name_k` are fresh
+    (`NoClash`; finding `expanded-name-clashes-with-bind-name` is its negation), the
+    DBAPI receives the statement in which every expanding token has been replaced by
+    its `k` placeholders (or the empty-set expression) and a parameter tuple that is
+    the concatenation, in textual order, of each plain parameter's value and each
+    expanding parameter's elements: expansion of one parameter never shifts the
+    values of the parameters after it. -/
+theorem expanding_alignment (c : Compiled) (st : Style) (segs : List Seg)
+    (params : List (Str × PVal))
+    (hst : st = .qmark ∨ st = .format)
+    (hpre : c.pre = renderSegs segs) (hesc : c.escaped = [])
+    (hsafe : SafeSegs .both segs)
+    (hsafeB : SafeSegs .onlyB (posSegs (placeholderOf st) segs))
+    (hpc : hasPostCompile c = true)
+    (hnc : NoClash c st params (segNames segs))
+    (hok : ∀ n ∈ segNames segs, NameOk c params n)
+    (hpcs : ∀ n g, Seg.pc n g ∈ segs → g = none ∧ isExpanding c n = true) :
+    initCompiled c st params =
+      .ok (expString (placeholderOf st) (replOf c st params) segs,
+           .tuple (((segNames segs).flatMap (contrib c st params)).map (·.2))) := by
+  have hp : st.positional = true := by rcases hst with rfl | rfl <;> rfl
+  have hn : st.isNumeric = false := by rcases hst with rfl | rfl <;> rfl
+  have hs1 : stage1 c st = processPositional c st := by
+    rcases hst with rfl | rfl <;> simp [stage1, Style.positional, Style.isNumeric]
+  obtain ⟨s', hloop, hinv⟩ := pcLoop_inv c st params (segNames segs) hesc hp hn hnc hok
+    (segNames segs) [] _ (by simp) (LoopInv.init c st params)
+  have hmem : ∀ n g, Seg.pc n g ∈ segs → n ∈ segNames segs := pc_mem_segNames segs
+  have hrepl : ∀ n g, Seg.pc n g ∈ segs → g = none ∧
+      alookup n s'.repl = some (replOf c st params n) := by
+    intro n g hm
+    obtain ⟨hg, hex⟩ := hpcs n g hm
+    refine ⟨hg, ?_⟩
+    have hin := hmem n g hm
+    rcases hok n hin with ⟨b, v, hk, hpl, hv⟩ | ⟨b, vs, hk, hpe, hv⟩
+    · rw [isExpanding_of hk] at hex; simp [hpl] at hex
+    · rw [hinv.repl n hin b vs hk hpe hv]
+      simp [replOf, hk, hv]
+  have hgen : ∀ kv ∈ (segNames segs).flatMap (contrib c st params),
+      alookup kv.1 s'.params = some kv.2 := by
+    intro kv hkv
+    apply hinv.generated kv hkv
+    obtain ⟨m, hm, hkm⟩ := List.mem_flatMap.mp hkv
+    rcases hok m hm with hpl | ⟨b, vs, hk, hpe, hv⟩
+    · right
+      have := contrib_keys_of_plain (st := st) hpl kv hkm
+      obtain ⟨b, v, hk, hp', _⟩ := hpl
+      rw [this, isExpanding_of hk]; simp [hp']
+    · left
+      have hexm : isExpanding c m = true := by rw [isExpanding_of hk]; simp [hpe]
+      exact hnc.fresh m hm hexm kv hkm
+  unfold initCompiled
+  rw [hs1, positional_alignment c st segs hpre hesc hsafe]
+  simp only [hpc, if_true]
+  unfold postcompile
+  simp only [hp, if_true, hloop, hn, Bool.and_false, Bool.false_eq_true, if_false]
+  rw [posString_eq, scan_round_trip .onlyB _ hsafeB,
+    subExpanding_posSegs (placeholderOf st) s'.repl (replOf c st params) segs hrepl]
+  simp only [hinv.newPos, hinv.numPos]
+  rw [collectPos_pairs s'.params _ hgen]
+
 /-! ## the guard is necessary: counterexamples (each replayed on the real code) -/
 
 def f2Pre : Str := "INSERT INTO w (\"%(id)s\") VALUES (%(id)s)".toList
@@ -261,6 +343,43 @@ example : SafeSegs .both exSegs := by decide +kernel
 example : SafeSegs .onlyA exSegs := by decide +kernel
 
 example : SafeSegs .onlyB exSegs := by decide +kernel
+
+def exC : Compiled :=
+  { pre := renderSegs exSegs2, binds := [⟨"a".toList, .plain, []⟩, ⟨"b".toList, .expanding, "NOTHING".toList⟩],
+    escaped := [], valuesBind := none }
+where exSegs2 : List Seg :=
+  [.text "x > ".toList, .bind "a".toList, .text " AND y IN (".toList, .pc "b".toList none,
+   .text ")".toList]
+
+def exParams : List (Str × PVal) :=
+  [("a".toList, .one "1".toList), ("b".toList, .many ["2".toList, "3".toList])]
+
+/-- the hypotheses of `expanding_alignment` are satisfiable, and its conclusion is the
+    expected call -/
+example :
+    initCompiled exC .qmark exParams =
+      .ok ("x > ? AND y IN (?, ?)".toList,
+           .tuple [.one "1".toList, .one "2".toList, .one "3".toList]) := by
+  have h := expanding_alignment exC .qmark exC.exSegs2 exParams (Or.inl rfl) rfl rfl
+    (by decide +kernel) (by decide +kernel) (by decide +kernel)
+    ⟨by decide +kernel, by decide +kernel, by decide +kernel⟩
+    (by
+      intro n hn
+      have : n = "a".toList ∨ n = "b".toList := by
+        simp only [exC.exSegs2, segNames, List.mem_cons, List.mem_nil_iff, or_false] at hn
+        exact hn
+      rcases this with rfl | rfl
+      · exact Or.inl ⟨⟨"a".toList, .plain, []⟩, "1".toList, by decide +kernel, rfl, by decide +kernel⟩
+      · exact Or.inr ⟨⟨"b".toList, .expanding, "NOTHING".toList⟩, ["2".toList, "3".toList],
+          by decide +kernel, rfl, by decide +kernel⟩)
+    (by
+      intro n g hm
+      simp only [exC.exSegs2, List.mem_cons, List.mem_nil_iff, or_false, reduceCtorEq,
+        false_or, Seg.pc.injEq] at hm
+      obtain ⟨rfl, rfl⟩ := hm
+      exact ⟨rfl, by decide +kernel⟩)
+  rw [h]
+  decide +kernel
 
 example : segNames exSegs = ["p_1".toList, "y_1".toList, "s_1".toList, "param_1".toList] := by
   decide
